@@ -18,7 +18,11 @@ PROP = {
                    "compared cell by cell with the real code on every run (exact arrangement after Sort through item ids, the exact sequence of iterSwapper calls through a logging swapper, exact indices "
                    "returned by Find/GetBounds, pvMultShift/pvGetStepCount at function level); thresholds and radix constants are "
                    "re-extracted from the headers."
-                   " HashSorter::pvGetStepCount is additionally TRANSLATED from the header text on every run (tools/translate.py) and proved equal to the model's stepCount (C17_stepCount_translated)."),
+                   " HashSorter::pvGetStepCount is additionally TRANSLATED from the header text on every run (tools/translate.py) and proved equal to the model's stepCount (C17_stepCount_translated)."
+                   " Area Misc of the translator (tools/trspecs/Misc.py): pvMultShift, pvCompare, the index updates of pvFindHash / pvExponentialSearch / "
+                   "pvBinarySearch, RadixSorter::pvGetRadix, the shift clamp of RadixSorter::Sort, nextShift, selectionSortMaxCount and radixCount are "
+                   "TRANSLATED from the header text on every run and proved equal to the model functions / to the expressions of the model loops "
+                   "(Proof/TrEqMisc2Sort.lean; C17_multShift_translated, C17_findHashLoop_translated, C17_getRadix_translated, C17_radix_shifts_translated ...)."),
     "level_note": ("Trusted: Lean kernel, the three standard axioms, extractor, correspondence harness (g++, -fno-access-control, ASan/UBSan). "
                    "Modelled, not verified: iterators as (view, offset) pairs, std::reverse_iterator arithmetic, std::iter_swap / std::swap as "
                    "an exchange of two cells, std::min_element as 'first smallest', std::array bounds; sizes are unbounded naturals (index "
@@ -41,6 +45,13 @@ PROP = {
         "Momo.Sort.C17_isSorted_plain",
         "Momo.Sort.C17_isSorted_prehashed",
         "Momo.Sort.C17_stepCount_translated",
+        "Momo.Sort.C17_multShift_translated",
+        "Momo.Sort.C17_pvCompare_translated",
+        "Momo.Sort.C17_findHash_start_translated",
+        "Momo.Sort.C17_findHashLoop_translated",
+        "Momo.Sort.C17_search_steps_translated",
+        "Momo.Sort.C17_getRadix_translated",
+        "Momo.Sort.C17_radix_shifts_translated",
     ],
     "harnesses": [
         {"name": "c17_sort", "src": "c17_sort.cpp", "sanitize": "asan"},
